@@ -128,3 +128,41 @@ PROPS["C14"] = {
             "strings of length 1..2. Non-trivial = accepted; distinct by (kind, content, options, scale list).",
     "assumptions": COMMON_ASSUMPTIONS,
 }
+
+QR_LAYOUTS = [f"{v}-{l}" for v in range(1, 41) for l in "LMQH"]
+
+PROPS["C01"] = {
+    "technique": "round-trip property testing: boundary-directed rapid generation over (mode, level, target version, length at/around capacity) + deterministic sweep of all 160 layouts x 3 modes, decoded by an independent strict ISO 18004 reader",
+    "level_text": "exploration: every generated (content, level, mode) the encoder accepts is read back from the pixels by an independent reader that verifies finder/separator/timing/alignment/dark modules, both BCH-valid format copies, both Golay-valid version copies, unmasking, zig-zag placement, zero remainder bits, block de-interleaving by a frozen ISO block table, zero RS syndromes for every block, segment syntax, terminator and EC/11 padding; decoded bytes must equal the input and representable content must be accepted",
+    "level_note": RT_NOTE + "; QR block and alignment tables generated from an unrelated implementation found on this machine (npm qrcode-terminal, one known error corrected) and validated against the module-count formula; mask choice and segmentation are not judged",
+    "parts": [
+        {"name": "regression", "kind": "plain", "test": "TestReplayDir"},
+        {"name": "sweep", "kind": "plain", "test": "TestC01Sweep"},
+        {"name": "rapid", "kind": "rapid", "test": "TestC01Rapid", "checks": {"quick": 16000, "thorough": 1200000}},
+    ],
+    "universes": {"qr_layouts": QR_LAYOUTS, "qr_versions": [str(v) for v in range(1, 41)], "qr_masks": [str(m) for m in range(8)],
+                  "qr_layout_x_mode": [f"{x}-{m}" for x in QR_LAYOUTS for m in ("numeric", "alnum", "byte")]},
+    "rule": "case = (content, level, mode): target version drawn with probability ~ 1/size^2, length drawn at capacity, capacity-1, capacity+1, the smallest "
+            "length needing that version, or uniformly in between; content class digits/alphanumeric/bytes (first 24 characters drawn individually, the rest from "
+            "a drawn pattern seed) with 15% perturbations (last character leaving the class, sign characters at 3-digit group starts, hostile bytes); sweep = every "
+            "(version, level) x {numeric, alphanumeric, byte} at capacity (thorough: also lower boundary and Auto). Non-trivial = accepted by the encoder; "
+            "distinct by (level, mode, content).",
+    "assumptions": COMMON_ASSUMPTIONS,
+}
+
+PROPS["C02"] = {
+    "technique": "round-trip property testing: codeword-budget-directed rapid generation (size index, budget at/around capacity, token grammar) + sweep of all 24 sizes x 3 content shapes, decoded by an independent ECC 200 reader (own Annex-F placement)",
+    "level_text": "exploration: every accepted content is read back by an independent reader: size in the 24-row table, solid L and clock track of every region, Annex-F module placement incl. corner cases and the fixed lower-right pattern, block de-interleaving by stream stride, zero RS syndromes per block over GF(256)/0x12D, ASCII encodation with digit pairs, upper shift and 253-state randomised pads; decoded bytes must equal the input; contents up to 1558 codewords must be accepted",
+    "level_note": RT_NOTE + "; 144x144 block layout per ISO 16022 (stream codeword p belongs to block p mod 10)",
+    "parts": [
+        {"name": "regression", "kind": "plain", "test": "TestReplayDir"},
+        {"name": "sweep", "kind": "plain", "test": "TestC02Sweep"},
+        {"name": "rapid", "kind": "rapid", "test": "TestC02Rapid", "checks": {"quick": 30000, "thorough": 1500000}},
+    ],
+    "universes": {"dm_sizes": [str(n) for n in (10, 12, 14, 16, 18, 20, 22, 24, 26, 32, 36, 40, 44, 48, 52, 64, 72, 80, 88, 96, 104, 120, 132, 144)],
+                  "dm_blocks": ["1", "2", "4", "6", "8", "10"], "dm_corner_cases": ["0", "1", "2", "3", "4"]},
+    "rule": "case = byte string built for a drawn codeword budget: size index 0..23, budget = capacity / capacity-1 / capacity-2 / smallest budget needing the size / "
+            "uniform / 1559..1561 (rejected side); tokens: ASCII byte, digit pair, byte >= 128 (upper shift), odd digit runs, digit-letter-digit; exact budget "
+            "reached with the reference codeword counter. Non-trivial = accepted; distinct by content.",
+    "assumptions": COMMON_ASSUMPTIONS,
+}
